@@ -1,6 +1,6 @@
 //! Configuration A on stream transports: one compio stream (TCP loopback / Unix) against a raw
 //! non-blocking peer socket operated by the harness.
-use std::{collections::VecDeque, io, rc::Rc, time::Duration};
+use std::{io, rc::Rc, time::Duration};
 
 use compio_buf::BufResult;
 use compio_driver::DriverType;
@@ -197,13 +197,36 @@ fn with_listener<T>(tr: Transport, f: impl FnOnce(&Socket, &socket2::SockAddr) -
     })
 }
 
+/// Accept on the worker's listener until the connection whose peer is `client` comes out
+/// (a connection left behind by an execution that died half way must not be mistaken for it).
+fn accept_matching(tr: Transport, client: &socket2::SockAddr) -> Result<Socket, String> {
+    let start = std::time::Instant::now();
+    loop {
+        let got = with_listener(tr, |lis, _| lis.accept().ok());
+        match got {
+            Some((p, a)) => {
+                // Unix clients are unnamed: nothing to compare, the queue is FIFO and was drained
+                if tr == Transport::Unix || peer::addr_eq(&a, client) {
+                    return Ok(p);
+                }
+            }
+            None => {
+                if start.elapsed() > Duration::from_secs(5) {
+                    return Err("raw accept failed".into());
+                }
+                std::thread::sleep(Duration::from_micros(50));
+            }
+        }
+    }
+}
+
 /// two connected raw TCP sockets (through the worker's listener)
 pub fn raw_tcp_pair() -> Result<(Socket, Socket), String> {
     let tr = Transport::Tcp;
     let a = with_listener(tr, |_, a| a.clone());
     let c = peer::raw_connect(tr, &a, false).map_err(|e| format!("raw connect: {e}"))?;
     c.set_nonblocking(false).ok();
-    let (p, _) = peer::wait_for(Duration::from_secs(2), || with_listener(tr, |lis, _| lis.accept().ok())).ok_or("raw accept failed")?;
+    let p = accept_matching(tr, &c.local_addr().map_err(|e| e.to_string())?)?;
     p.set_nonblocking(false).ok();
     peer::set_linger0(std::os::fd::AsRawFd::as_raw_fd(&p));
     Ok((c, p))
@@ -245,7 +268,11 @@ pub fn connect_pair(rt: &Runtime, tr: Transport, origin: Origin) -> Result<(SH, 
         }
         _ => return Err("no such stream transport".into()),
     };
-    let (p, _) = peer::wait_for(Duration::from_secs(2), || with_listener(tr, |lis, _| lis.accept().ok())).ok_or("raw accept failed")?;
+    let local = match &cs {
+        SH::Tcp(s) => socket2::SockAddr::from(s.local_addr().map_err(|e| e.to_string())?),
+        SH::Unix(s) => s.local_addr().map_err(|e| e.to_string())?,
+    };
+    let p = accept_matching(tr, &local)?;
     p.set_nonblocking(true).map_err(|e| e.to_string())?;
     if tr == Transport::Tcp {
         let pfd = std::os::fd::AsRawFd::as_raw_fd(&p);
@@ -508,14 +535,21 @@ impl<'a> World<'a> {
         let tp = std::time::Instant::now();
         task.poll_now();
         rt::prof("do_send:first-poll", tp);
-        for _ in 0..3 {
-            if task.is_done() {
+        // A send may stay pending only while the socket has no send space: as long as the kernel
+        // reports POLLOUT the completion is something the harness may wait for (bounded).
+        let start = std::time::Instant::now();
+        let fd = self.cs.raw_fd();
+        let mut rounds = 0u32;
+        while !task.is_done() {
+            harvest(self.rt);
+            task.poll_if_woken();
+            rounds += 1;
+            if task.is_done() || (rounds >= 2 && !peer::writable(fd)) || start.elapsed() > rt::settle_limit() {
                 break;
             }
-            harvest(self.rt);
-            let tp = std::time::Instant::now();
-            task.poll_if_woken();
-            rt::prof("do_send:repoll", tp);
+            if rounds > 8 {
+                std::thread::sleep(Duration::from_micros(50));
+            }
         }
         self.in_send = Some((task, class, data));
         self.finish_send();
@@ -1263,5 +1297,3 @@ pub fn probe_accept(tr: Transport) -> usize {
     n
 }
 
-#[allow(dead_code)]
-pub fn unused(_: VecDeque<u8>) {}
